@@ -168,6 +168,7 @@ let handle (line : Stdlib.String.t) : Stdlib.String.t =
            Printf.sprintf "spans %s hdr=1 lbls=%d" (Stdlib.String.concat "," sp) (List.length anns)
        | RNothing -> "spans  hdr=0 lbls=0"
        | RFallback _ -> "fallback")
+  | "setenv" | "chdir" -> "ok"      (* the model has no environment: the resolved path is a function of the two strings and the disk *)
   | "fsclear" -> Hashtbl.reset files; "ok"
   | "fs" -> Hashtbl.replace files (unhex f.(1)) (); "ok"
   | "abspath" | "abspath_old" ->
